@@ -414,7 +414,12 @@ impl Clone for Common<DynamicClone> {
     fn clone(&self) -> Self {
         unsafe {
             let result = Common {
-                storage: NonNull::new_unchecked(alloc(self.layout)),
+                // Allocating a zero-size layout is undefined behavior
+                storage: if self.layout.size() == 0 {
+                    self.storage
+                } else {
+                    NonNull::new_unchecked(alloc(self.layout))
+                },
                 layout: self.layout,
                 cursor: self.cursor,
                 info: self.info.clone(),
